@@ -1,4 +1,4 @@
-import EvoModel.Model.Ape
+import EvoModel.Model.Pipeline
 namespace Evo.Drv.C01
 open Evo
 
@@ -6,6 +6,8 @@ open Evo
   `ape rel n ref-poses… n est-poses…` → `OK core…` | `E_METRICS:len` | `E_METRICS:rel` | `E_GEOMETRY`
        (core tokens: `S:r` = √r, `A:c:s2:rad|deg` = atan2(√s2, c))
   `margin n ref… n est…`              → smallest distance of an `is_so3` guard quantity from its threshold
+  `run <opts> <params> <ref traj> <est traj>` → the whole pipeline on rational trajectories (Model/Pipeline.lean):
+       `OK unit | ids… | stamps | cores | margin` or `E:<exception class>`
   `relinfo <cli choice>`              → `PoseRelation value|APE unit|RPE unit` (table tie)
   `plan <15 option tokens>`           → `step | step | …` or `E_FILTER` -/
 def handle (op : String) (args : List String) : Option String :=
@@ -24,6 +26,12 @@ def handle (op : String) (args : List String) : Option String :=
   | "plan", rest => do
       let (o, _) ← readCommonOpts rest
       some (showPlan (apePlan o))
+  | "run", rest => do
+      let (o, rest) ← readCommonOpts rest
+      let (P, rest) ← Pipeline.readParams rest
+      let (ref, rest) ← Pipeline.readTraj rest
+      let (est, _) ← Pipeline.readTraj rest
+      some (Pipeline.showApeRun (Pipeline.apeRun o P ref est) ++ " | " ++ showRat (Pipeline.selectMargin o P ref est))
   | "relinfo", [name] => do
       let rel ← PoseRelation.ofString? name
       some (rel.value ++ "|" ++ rel.apeUnit ++ "|" ++ rel.rpeUnit)
